@@ -30,6 +30,7 @@ RULE = (
     "non-trivial when the centred data are not all zero; distinct by content hash"
 )
 PARTIAL = [
+    "translator (harness/c02_translate.py): the operators / powers / operand orders / transposes of _fit_covariance, _fit_inner_product, _compute_covariance are re-extracted with ast on every run into lean/FDAModel/Generated/UfpcaFormulas.lean and proved equal to the model (C02.*_src_eq_model); an unrecognised source shape falls back on harness/c02_ufpcaformulas_reference.lean with a note (coverage.translator) and the tie then rests on the correspondence only",
     "the eigen-solver is a parameter: the theorems assume its contract (A u = λ u, orthonormal vectors); the oracle measures the "
     "captured output's residual and orthonormality defect (coverage.solver_contract)",
     "square roots: theorems with exact roots as hypotheses (any field, ℝ included); the driver uses rational brackets within 1e-24 (C02.sqrt_bracket)",
